@@ -13,6 +13,7 @@ package multiplex
 //   T:<conn>:<keep>:<sid>:<seq>:<payload hex>             a valid frame cut to its first <keep> bytes
 //   F:<conn>:<bit>:<sid>:<seq>:<payload hex>              a valid frame with one bit flipped
 //   H:<conn>:<bit 0..15>:<sid>:<seq>:<payload hex>        a valid frame with one bit of header bytes 12-13 flipped (still authenticates)
+//   P:<conn>:<keep>:<sid>:<seq>:<payload hex>             a record whose header announces a valid frame but whose body ends after <keep> bytes: the connection drops there
 //   K:<conn>:<sid>:<seq>:<payload hex>                    a valid frame sealed under another key
 //   Q                                                     settle and observe
 // output: <id> q:<closed>:<closeCalls>:<sent>:<sid>=<data|-><.|!>,... per Q
@@ -39,6 +40,7 @@ type c11LoopConn struct {
 	closed     bool
 	closeCalls int
 	waiting    bool // the reader is parked in Read with nothing to consume
+	sawEOF     bool // the reader has been told that the connection is over
 	sent       int
 }
 
@@ -58,6 +60,8 @@ func (c *c11LoopConn) Read(p []byte) (int, error) {
 	}
 	c.waiting = false
 	if len(c.buf) == 0 {
+		c.sawEOF = true
+		c.cond.Broadcast()
 		return 0, io.EOF
 	}
 	n := copy(p, c.buf)
@@ -99,7 +103,7 @@ func (c *c11LoopConn) feed(record []byte) {
 // settle: the receive loop has consumed everything and is back in Read, or the connection is closed
 func (c *c11LoopConn) settle() {
 	c.mu.Lock()
-	for !(c.closed || (c.waiting && len(c.buf) == 0)) {
+	for !((c.closed && c.sawEOF) || (c.waiting && len(c.buf) == 0)) {
 		c.cond.Wait()
 	}
 	c.mu.Unlock()
@@ -159,6 +163,7 @@ func c11LoopRun(fs []string) string {
 		return buf[:n]
 	}
 	handles := map[uint32]*Stream{}
+	shutAny := false
 	var out []string
 	for _, tok := range fs[5:] {
 		p := strings.Split(tok, ":")
@@ -188,6 +193,19 @@ func c11LoopRun(fs []string) string {
 			}
 			f[bit/8] ^= 1 << (bit % 8)
 			conns[ci].feed(c11LoopRecord(f))
+		case "P":
+			// a record cut short by a connection drop: the header announces the whole frame, only <keep> bytes of
+			// the body arrive, then the connection ends.  What was received is not a message: nothing of it may be
+			// handed to the session.
+			keep, _ := strconv.Atoi(p[2])
+			f := frame(&peer, p[3], p[4], "0", p[5])
+			rec := c11LoopRecord(f)
+			if keep >= len(f) {
+				keep = len(f) - 1
+			}
+			conns[ci].feed(rec[:5+keep])
+			conns[ci].shut()
+			shutAny = true
 		case "H":
 			// one bit of the two header bytes that lie outside the AEAD (closing flag, extra length): the frame still
 			// authenticates (known finding F3) and is acted upon - whatever it then means, it must not crash the process
@@ -201,6 +219,13 @@ func c11LoopRun(fs []string) string {
 		case "Q":
 			for _, c := range conns {
 				c.settle()
+			}
+			if shutAny {
+				// a dropped connection takes the session down; whatever its receive loop did with its last read
+				// has been done by then
+				for dl := time.Now().Add(3 * time.Second); !sesh.IsClosed() && time.Now().Before(dl); {
+					time.Sleep(200 * time.Microsecond)
+				}
 			}
 			for {
 				var st *Stream
